@@ -39,15 +39,20 @@ MinI(x, y) == IF x < y THEN x ELSE y
 ReadPlain ==
   /\ NeedMore /\ dl - ws < cap
   /\ LET sp == cap - (dl - ws) IN \E n \in 0..MinI(sp, Rem) : Refill(n, sp) /\ RefillPlain(n, sp) /\ Sched(n)
-Compact ==
-  /\ NeedMore /\ dl - ws = cap /\ Committed > ws
+\* compaction of a full window: part of it is still unconsumed / all of it is consumed
+\* (offset = Len(buffer) = capacity: the whole window is dropped, the next byte lands at index 0)
+CompactPart ==
+  /\ NeedMore /\ dl - ws = cap /\ Committed > ws /\ Committed < dl
   /\ LET sp == cap - (dl - Committed) IN \E n \in 0..MinI(sp, Rem) : Refill(n, sp) /\ CompactRefill(n, sp) /\ Sched(n)
+CompactAll ==
+  /\ NeedMore /\ dl - ws = cap /\ cap > 0 /\ Committed = dl
+  /\ LET sp == cap IN \E n \in 0..MinI(sp, Rem) : Refill(n, sp) /\ CompactRefill(n, sp) /\ Sched(n)
 Grow ==
   /\ NeedMore /\ dl - ws = cap /\ Committed = ws
   /\ \E sp \in GrowSet : \E n \in 0..MinI(sp, Rem) : Refill(n, sp) /\ GrowRefill(n, sp) /\ Sched(n)
 ParseOk == Emit
 NeedMoreAtEof == Eof
-Next == ReadPlain \/ Compact \/ Grow \/ NeedMoreAtEof \/ ParseOk
+Next == ReadPlain \/ CompactPart \/ CompactAll \/ Grow \/ NeedMoreAtEof \/ ParseOk
 Spec == Init /\ [][Next]_vars
 
 \* the schedule is history only
